@@ -1,7 +1,7 @@
 CONSTANTS
   Clusters = {"c1", "c2"}
   Subs = {"s1", "s2"}
-  Backs = {"b1", "b2", "b3"}
+  Backs = {@BACKS@}
   MaxReloads = @RELOADS@
   MaxTouch = @TOUCH@
   MaxIds = 60
